@@ -127,4 +127,11 @@ META = {
                 'REAL (floating point is outside this family: no stand-in built).',
         'technique': 'contracts against shared spec functions + inverse lemmas by induction, z3',
     },
+    'C20': {
+        'text': 'Reduced to the leaf kernel: every GSER leaf encoder under contract equals its RFC 3641 spec function (character '
+                'strings with doubled quotation marks, BOOLEAN, INTEGER, NULL, ENUMERATED, CHOICE) and the top-level '
+                '"name Type ::= value" wrapper embeds the value text unchanged; all obligations discharged.',
+        'note': 'Not covered: exact text of SEQUENCE/SET/OF, BIT/OCTET STRING, REAL; injectivity of the notation is argued, not proved.',
+        'technique': 'contracts against RFC 3641 spec functions + VC generation over the python ast, z3 strings',
+    },
 }
